@@ -254,7 +254,7 @@ PROPS["C12"] = {
         H("c12_help::c12_request_predicate_n8", tier="thorough", cfg=["vp_thorough"], bounds="token buffer of exactly 8 bytes", timeout=3400, mem=12),
     ] + routing_set(["C12"]) + [
     ] + [H("c12_content::" + n, bounds="help text for %s compared byte by byte with the documented format" % n, timeout=900, mem=4) for n in [
-        "help_all", "help_led", "led_dash_h", "led_long_help", "led_cluster_h", "help_go", "help_sub", "help_sub_ping", "sub_ping_dash_h",
+        "help_all", "help_led", "led_dash_h", "led_long_help", "led_cluster_h", "help_go", "help_cp", "cp_dash_h_among_values", "help_sub", "help_sub_ping", "sub_ping_dash_h",
         "help_unknown", "help_unknown_sub", "group_help_all", "group_help_second_member", "group_help_first_member", "group_help_hidden", "group_hidden_dash_h"]] + [
         H("c12_help::c12_request_twin", kind="twin"),
     ],
